@@ -949,6 +949,8 @@ func genC08(b *builder, n int) {
 		b.add("files", "file", []byte(d), withKnown)
 		b.add("files", "file", []byte(d[:len(d)/2]), withKnown)
 		b.add("docs", "raw", []byte(d), nil)
+		b.add("docs", "rawpos", []byte(d), nil)
+		b.add("docs", "rawpos", []byte(strings.ReplaceAll(d, "\n", "\r\n")), nil)
 		b.add("docs", "filtered", []byte(d), nil)
 		b.add("docs", "ptokens", []byte(d), nil)
 		b.add("docs", "series", []byte(d), withKnown)
@@ -1002,7 +1004,7 @@ func genC08(b *builder, n int) {
 	// random longer sequences, bad UTF-8, mutated documents
 	for i := 0; i < n; i++ {
 		in := b.malformedBytes()
-		ops := []string{"series", "unmarshal", "tojson", "ptokens", "raw"}
+		ops := []string{"series", "unmarshal", "tojson", "ptokens", "raw", "rawpos"}
 		b.add("malformed", ops[i%len(ops)], in, withKnown)
 		if i%4 == 0 {
 			b.add("malformed", "utf8", in, nil)
@@ -1019,6 +1021,17 @@ func genC08(b *builder, n int) {
 			b.add("cut", "unmarshal", txt[:g.r.Intn(len(txt))], nil)
 			b.add("cut", "series", append([]byte("x "), txt[:g.r.Intn(len(txt))]...), withKnown)
 		}
+	}
+	// positions
+	for _, s := range []string{"", "a", "\n", "a\n", "\n\na", "\"x\ny\"", "/* a\nb */ c", "`r\nr` 1", "é 中\n😀 x", "\xff\xfe a\n b", "a\r\nb", "# $\n %", "\t\ta", "1 {}\n1 {}\n", "//c", "//c\n", "a // c\n  b"} {
+		b.add("positions", "rawpos", []byte(s), nil)
+	}
+	for _, k := range manyErrCounts {
+		b.add("positions", "rawpos", []byte(strings.Repeat("# \n $", k)), nil)
+	}
+	for i := 0; i < n/6; i++ {
+		v := g.value(3)
+		b.add("positions", "rawpos", []byte(g.render(v)), nil)
 	}
 	// a Decoder used for several values; series with struct types
 	genMulti(b, n/8, true)
